@@ -2,7 +2,7 @@
 //!   gen    : module graphs (exhaustive shapes over 3 modules + seeded random graphs with cycles,
 //!            aliases, missing/broken files, data imports, globals, name clashes) loaded through
 //!            `Loader::with_read` (in-memory reader), compiled and run with the real library;
-//!            prints `id \t c16.run <graph> \t real answer`
+//!            prints `REQ id \t c16.run <graph>` before and `ANS id \t real answer` after each run
 //!   single : stdin lines `id \t g1,g2 \t program` (the inlined programs printed by the model):
 //!            compiles and runs each as one program; prints `id \t OUT <json>` …
 //! The programs are written in a "probe language": every definition returns an array of a unique
@@ -688,12 +688,17 @@ pub fn gen(tier: &str) {
     let seed = prng::seed_from_env();
     let mut id = 0usize;
     let mut emit = |c: &Case| {
+        use std::io::Write;
         let req = enc_case(c);
+        // the request is printed (and flushed) before the real code runs, so that a crash of the
+        // process (stack overflow of a loader that does not stop on a cycle) names its input
+        println!("REQ m{id}\tc16.run {req}");
+        std::io::stdout().flush().ok();
         let real = match catch(|| run_case(c)) {
             Ok(s) => s,
             Err(m) => format!("PANIC {}", m.replace(['\n', '\t'], " ")),
         };
-        println!("m{id}\tc16.run {req}\t{real}");
+        println!("ANS m{id}\t{real}");
         id += 1;
     };
     let per_shape = if tier == "thorough" { 6 } else { 2 };
